@@ -41,6 +41,10 @@ def key_jobs(tier):
     for klen, xlen in (((3, 4),) if tier == "quick" else ((3, 4), (4, 5))):
         js.append({"id": f"O5.prefix-end.k{klen}.x{xlen}", "func": "VerifH_C17_PrefixEnd", "conf": {"klen": klen, "xlen": xlen},
                    "_obligation": "O5", "_covers": ["computed"], "unwind": 40})
+    for kind in ((0, 1) if tier == "quick" else (0, 1, 2, 3)):
+        js.append({"id": f"O5.key-range.index.{KK[kind]}", "func": "VerifH_C17_KeyRange", "conf": {"which": 0, "kind": kind},
+                   "_obligation": "O5", "_covers": ["ranged"], "unwind": 40})
+    js.append({"id": "O5.key-range.document", "func": "VerifH_C17_KeyRange", "conf": {"which": 1, "kind": 0}, "_obligation": "O5", "_covers": ["ranged"], "unwind": 40})
     js.append({"id": "twin.keys", "func": "VerifH_C17_KeysReach", "conf": {}, "_obligation": "vacuity", "_expect": "twin", "_covers": ["end"]})
     return js
 
